@@ -45,6 +45,7 @@ VARIANTS = {
     "V7": {"maxIterations": 4},
     "V8": {"maxIterations": 5, "pressRelErrTol": 0.01},
     "V9": {"thicknessBounds": [0.1, 3.0], "M": 16},
+    "V10": {"errTol": 3e-5},
 }
 SETTINGS = {
     "S0": {"mfp": 5000.0, "thickness": 10.0},
@@ -256,7 +257,7 @@ class ManagerMachine(Machine):
                      "faultFired": ["callback_raises", "callback_nan", "missing_file"]},
     }
     OPS = ("setup", "lte", "solve", "detonation", "hydro", "thermo", "config", "colldir",
-           "new_model", "arm", "solver_reuse", "params")
+           "new_model", "arm", "solver_reuse", "params", "other_manager")
     POSSIBLE_BIGRAMS = len(OPS) * (len(OPS) + 1)
 
     # ------------------------------------------------------------------ config
@@ -272,7 +273,7 @@ class ManagerMachine(Machine):
         pts = fixtures.POINTS[kind]
         weights = {"setup": 1, "lte": 1, "solve": 3, "detonation": 1, "hydro": 1, "thermo": 1,
                    "config": 1, "colldir": 0, "new_model": 1, "arm": 1, "solver_reuse": 1,
-                   "params": 1}
+                   "params": 1, "other_manager": 1}
         pool = [v for v in VARIANTS if v != "V0"]
         offEq = False
         good = list(pts["good"])
@@ -281,7 +282,7 @@ class ManagerMachine(Machine):
             variants = ["V0", rng.choice(["V1", "V5"])]
             good = [t for t in good if t >= 6.5]
         elif theme == "labelling":
-            variants = rng.sample(["V2", "V4", "V7", "V8", "V9"], 2) + ["V0"]
+            variants = rng.sample(["V2", "V4", "V7", "V8", "V9", "V10"], 2) + ["V0"]
             weights.update(config=3, hydro=0, thermo=0, detonation=0, arm=0)
             good = [t for t in good if t >= 7.0]
         elif theme == "offeq":
@@ -335,6 +336,7 @@ class ManagerMachine(Machine):
         self._dirs: dict = {}
         self.settingsObj: Any = None
         self.otherModels: list = []
+        self.otherManagers: list = []
         self.lastPoint: float | None = None
         ctx.scratch()
         # forked NOW, while this process has not run any WallGo computation
@@ -457,7 +459,8 @@ class ManagerMachine(Machine):
                                                           else 0.6))
             return {"op": "solve", "settings": rng.choice(cfg["settings"]), "offEq": offEq}
         if op == "detonation":
-            return {"op": "detonation", "settings": rng.choice(cfg["settings"])}
+            return {"op": "detonation", "settings": rng.choice(cfg["settings"]),
+                    "offEq": bool(cfg["offEq"] and rng.random() < 0.5)}
         if op == "lte":
             return {"op": "lte"}
         if op == "hydro":
@@ -465,7 +468,7 @@ class ManagerMachine(Machine):
                                "slowestDeton", "efficiencyFactor", "findvwLTE", "findMatching"])
             return {"op": "hydro", "call": call, "vw": round(rng.uniform(0.05, 0.95), 3)}
         if op == "thermo":
-            return {"op": "thermo", "which": rng.choice(["low", "high"]),
+            return {"op": "thermo", "which": rng.choice(["low", "high", "Tc"]),
                     "rel": rng.choice([0.5, 0.9, 1.0, 1.05, 1.5])}
         if op == "config":
             return {"op": "config", "variant": rng.choice(cfg["variants"])}
@@ -477,6 +480,8 @@ class ManagerMachine(Machine):
             return {"op": "new_model"}
         if op == "params":
             return {"op": "params", "set": rng.choice(["P0", "P1", "P2"])}
+        if op == "other_manager":
+            return {"op": "other_manager", "variant": rng.choice(sorted(VARIANTS))}
         if op == "solver_reuse":
             offEq = bool(cfg["offEq"] and self.collKind in ("good", "good2")
                          and rng.random() < 0.7)
@@ -495,7 +500,7 @@ class ManagerMachine(Machine):
 
     # ------------------------------------------------------------------ references
     def _refKey(self, op: str, args: Any) -> tuple:
-        coll = self.collKind if (op == "solve" and args and args[1]) else "-"
+        coll = self.collKind if (op in ("solve", "detonation") and args and args[1]) else "-"
         return (self.kind, self.paramSet, self.tscale, self.point, self.variant, coll, op,
                 digest(args) if args is not None else None)
 
@@ -551,8 +556,8 @@ class ManagerMachine(Machine):
                         value = mgr.solveWall(self._settings(step["settings"], step["offEq"],
                                                              history))
                     elif op == "detonation":
-                        value = mgr.solveWallDetonation(self._settings(step["settings"], False,
-                                                                       history))
+                        value = mgr.solveWallDetonation(self._settings(
+                            step["settings"], bool(step.get("offEq", False)), history))
                     else:
                         raise HarnessError(op)
         except HarnessError:
@@ -946,6 +951,29 @@ class ManagerMachine(Machine):
         self.point = None
         return ["params", self.paramSet]
 
+    def _op_other_manager(self, step: dict) -> Any:
+        """A second WallGoManager lives in the same process and its configuration is
+        edited IN PLACE, element by element, the way Config.loadConfigFromFile does.
+        Nothing of that may reach this manager."""
+        if step["variant"] not in VARIANTS:
+            raise Skip()
+        other = self.WallGo.WallGoManager()
+        other.setVerbosity(logging.ERROR)
+        logging.disable(logging.CRITICAL)
+        cfg = self._solveCfg(step["variant"])
+        c = other.config
+        c.configEOM.wallThicknessBounds[0] = 0.05 * cfg["thicknessBounds"][0]
+        c.configEOM.wallThicknessBounds[1] = 0.5 * cfg["thicknessBounds"][1]
+        c.configEOM.wallOffsetBounds[0] = -3.0
+        c.configEOM.wallOffsetBounds[1] = 3.0
+        c.configEOM.errTol = 7 * cfg["errTol"]
+        c.configEOM.maxIterations = 2
+        c.configGrid.spatialGridSize = 9
+        c.configHydrodynamics.relativeTol = 1e-3
+        self.otherManagers = (self.otherManagers + [other])[-2:]
+        self.ctx.probes["second_manager_configured_in_place"] += 1
+        return ["other_manager"]
+
     def _op_new_model(self, step: dict) -> Any:
         # a second instance of the same model class is created and discarded
         otherSet = {"P0": "P1", "P1": "P2", "P2": "P0"}[self.paramSet]
@@ -993,7 +1021,10 @@ class ManagerMachine(Machine):
             warnings.simplefilter("ignore")
             with np.errstate(all="ignore"):
                 try:
-                    if step["which"] == "low":
+                    if step["which"] == "Tc":
+                        # the cross-check WallGo's documentation recommends
+                        out = [th.findCriticalTemperature(dT=0.01 * float(self.point))]
+                    elif step["which"] == "low":
                         out = [th.pLowT(T), th.dpLowT(T), th.ddpLowT(T)]
                     else:
                         out = [th.pHighT(T), th.dpHighT(T), th.ddpHighT(T)]
@@ -1017,7 +1048,7 @@ class ManagerMachine(Machine):
         if op == "solve":
             return [step["settings"], bool(step["offEq"])]
         if op == "detonation":
-            return [step["settings"]]
+            return [step["settings"], bool(step.get("offEq", False))]
         return None
 
     def _op_setup(self, step: dict) -> Any:
@@ -1117,6 +1148,8 @@ class ManagerMachine(Machine):
     def _op_detonation(self, step: dict) -> Any:
         if step["settings"] not in SETTINGS:
             raise Skip()
+        if step.get("offEq") and self.kind != "yukawa":
+            raise Skip()
         return self._checked("detonation", step)
 
     def _checked(self, op: str, step: dict) -> Any:
@@ -1141,7 +1174,8 @@ class ManagerMachine(Machine):
             self.lastOutcome = f"{op}-faulted:{rec['outcome']}"
             return [op, "faulted", rec["outcome"]]
         # documented failure channel of the collision directory
-        if op == "solve" and step["offEq"] and self.collKind in ("missing", "mixed", "none"):
+        if op in ("solve", "detonation") and step.get("offEq") and \
+                self.collKind in ("missing", "mixed", "none"):
             name = {"missing": "missing_file", "mixed": "mixed_size",
                     "none": "missing_file"}[self.collKind]
             self.ctx.faultFired[name] += 1
